@@ -1,5 +1,6 @@
 import Hertz.Driver.Core
 import Hertz.Model.ClientSim
+import Hertz.Model.ClientHosts
 /-!
 C10 driver ops.
 
@@ -10,6 +11,10 @@ C10 driver ops.
 `c10stale gap | trace… F … cls0 cls1`
   concurrent run: the recorded trace must be accepted by `Pool.step` with equal triples, and the
   model's final gauges must equal the observed ones.
+
+`c10cli max wait mcd ppol nsteps (kind host m f x d)* | (cls (count idle waitq pending shouldRemove nhc dials open)*3)*(nsteps+1) Q maxOpen*3 excl dirty afterClose wrong late sentTwice`
+  Client-level script (host-client map, janitor tick, MaxConnDuration, requests kept in flight):
+  the model predicts every row; see harness/c10cli.go.
 
 The spec predicate is evaluated on the implementation's tokens only.
 -/
@@ -45,6 +50,56 @@ def seqSpec (impl : List String) : Bool × List String × String :=
     | _ => (false, [""], "")
   go 0 impl
 
+def parseSteps : List String → Option (List CStep)
+  | [] => some []
+  | kind :: h :: m :: f :: x :: d :: t => do
+    let h ← h.toNat?; let f ← f.toNat?; let x ← x.toNat?; let r ← parseSteps t
+    let q : CReq := { post := m == "p" || m == "pc", close := m == "gc" || m == "pc", fault := f, ctxm := x, dialFail := d == "1" }
+    let st ← match kind with
+      | "R" => some (CStep.req h q)
+      | "H" => some (CStep.hold h q)
+      | "U" => some (CStep.unhold h)
+      | "T" => some CStep.tick
+      | "A" => some CStep.age
+      | _ => none
+    pure (st :: r)
+  | _ => none
+
+/-- width of one output row of `c10cli`: class token + 8 gauges per host -/
+def cliRow : Nat := 1 + 8 * nHosts
+
+/-- spec of a Client-level run, on the implementation's rows.  Every row: per host the open
+connections never exceed the maximum, and a HostClient reports itself removable only when it counts
+no connection.  Last row (all calls returned): every connection of the host is idle in the current
+HostClient or closed, no waiter, pending = 0.  Tail: per-host maximum of simultaneously open
+connections within the bound, no exclusive/dirty/after-close/wrong/late/resend. -/
+def cliSpec (max : Nat) (impl : List String) : Bool :=
+  let hostOk (last : Bool) (g : List String) : Bool :=
+    match g with
+    | [count, idle, wq, pend, sr, _nhc, _dials, op] =>
+      decide ((op.toNat?.getD 999999) ≤ max) && (sr != "1" || count == "0") && (sr == "0" || sr == "1") &&
+      (!last || (count == idle && idle == op && wq == "0" && pend == "0"))
+    | _ => false
+  let rec rows (fuel : Nat) (l : List String) : Bool :=
+    match fuel, l with
+    | 0, _ => false
+    | _, "Q" :: rest =>
+      (match rest.drop nHosts with
+       | [excl, dirty, acl, wrong, late, twice] =>
+         excl == "0" && dirty == "0" && acl == "0" && wrong == "0" && late == "0" && twice == "0"
+       | _ => false) &&
+      (rest.take nHosts).all (fun m => decide ((m.toNat?.getD 999999) ≤ max))
+    | fuel + 1, cls :: rest =>
+      let g := rest.take (8 * nHosts)
+      g.length == 8 * nHosts &&
+      (List.range nHosts).all (fun k => hostOk (cls == "end") ((g.drop (8 * k)).take 8)) &&
+      rows fuel (rest.drop (8 * nHosts))
+    | _, [] => false
+  rows (impl.length + 1) impl
+
+def stepTag : CStep → String
+  | .req .. => "R" | .hold .. => "H" | .unhold _ => "U" | .tick => "T" | .age => "A"
+
 def dedup (l : List String) : List String := l.foldl (fun acc x => if acc.contains x then acc else acc ++ [x]) []
 
 def handle : Handler
@@ -65,6 +120,23 @@ def handle : Handler
     pure { out, spec := ok && ok2 && sim.ok, specNote := "after every call: count=idle, no waiter, pending=0; at the end open=idle, no exclusive/dirty/late/wrong/resend",
            cls := clsStr,
            tag := s!"seq:m{max}w{wait}:" ++ ",".intercalate seen ++ (if (sim.trace.filter (·.startsWith "acq,")).length > reqs.length then ":retry" else "") }
+  | "c10cli" :: max :: wait :: mcd :: ppol :: _n :: steps, impl => do
+    let maxN ← nat? max
+    let steps ← parseSteps steps
+    let cfg : MCfg := { pool := { maxConns := effMax maxN, wait := wait == "1" }, mcd := (← nat? mcd), ppol := (← nat? ppol) }
+    if impl == ["SPOILED"] then
+      pure { out := impl, spec := true, specNote := "run discarded by the harness: real-time assumptions did not hold", tag := "cli:spoiled" }
+    else
+    let (cs, rows) := simScript cfg {} 0 steps []
+    let cs := releaseAll cfg cs
+    let tail := impl.drop (cliRow * (steps.length + 1) + 1)
+    let out := rows ++ "end" :: gaugeRow cs ++ "Q" :: tail.take nHosts ++ ["0", "0", "0", "0", "0", "0"]
+    let classes := dedup ((List.range steps.length).map (fun i => rows.getD (cliRow * i) ""))
+    let nhcs := (List.range nHosts).map (fun k => toString (cs.hosts k).nhc)
+    pure { out, spec := cliSpec cfg.pool.maxConns impl && cs.ok,
+           specNote := "every row: open connections per host <= max, ShouldRemove only with no counted connection; at the end count=idle=open, no waiter, pending=0; no exclusive/dirty/late/wrong/resend",
+           tag := s!"cli:m{max}w{wait}d{mcd}p{ppol}:" ++ String.join (dedup (steps.map stepTag)) ++ ":" ++ ",".intercalate classes
+                  ++ ":hc" ++ "".intercalate nhcs }
   | "c10conc" :: max :: wait :: _nc :: _nr :: reap :: _seed :: _reqs, impl => conc max wait (reap != "0") impl
   | ["c10stale", _gap], impl => conc "1" "1" false impl
   | ["c10stale", _gap, _ctx], impl => conc "1" "1" false impl
